@@ -81,6 +81,8 @@ fn main() {
         "C16" => sockio::main_for(&args, sockio::Which::C16),
         "C17" => sockio::main_for(&args, sockio::Which::C17),
         "C18" => sockio::main_for(&args, sockio::Which::C18),
+        "C19" => vcore::engines::c19::main(&args),
+        "C19child" => vcore::engines::c19::child_main(),
         other => {
             eprintln!("unknown engine {other}");
             2
